@@ -66,6 +66,7 @@ class Meta(dict):
         return self
 
     def setdefault(self, key, value=None):
+        key = self.key_mapping.get(key, key)
         if key not in self:
             self[key] = value
         return self[key]
